@@ -412,7 +412,18 @@ def repo_lints(ctx):
                     n_loops += 1
                     pos = node.target.elts[0].id
                     for sub in ast.walk(node):
-                        if isinstance(sub, ast.Subscript) and isinstance(sub.value, ast.Attribute) and sub.value.attr in ELEM_TABLES:
+                        # the table as an attribute (grid_data.normals) or as a parameter of the same name handed in by the caller
+                        tname = sub.value.attr if isinstance(sub, ast.Subscript) and isinstance(sub.value, ast.Attribute) else (
+                            sub.value.id if isinstance(sub, ast.Subscript) and isinstance(sub.value, ast.Name) and sub.value.id in arg_names(fn) else None)
+                        if tname in ELEM_TABLES and isinstance(sub.value, ast.Name):
+                            # a parameter merely *named* like a table (union's per-grid `domain_indices` list): only when the
+                            # same loop reads some element table with the enumerated item, i.e. the item is an element number
+                            item = node.target.elts[1].id
+                            if not any(isinstance(o, ast.Subscript) and isinstance(o.value, ast.Attribute) and o.value.attr in ELEM_TABLES
+                                       and isinstance(o.slice.elts[0] if isinstance(o.slice, ast.Tuple) else o.slice, ast.Name)
+                                       and (o.slice.elts[0] if isinstance(o.slice, ast.Tuple) else o.slice).id == item for o in ast.walk(node)):
+                                tname = None
+                        if tname in ELEM_TABLES:
                             first = sub.slice.elts[0] if isinstance(sub.slice, ast.Tuple) else sub.slice
                             if isinstance(first, ast.Name) and first.id == pos:
                                 bad1.append((rel, qn, sub.lineno, unparse(sub)))
